@@ -165,11 +165,11 @@ CLAIMED = {
         technique='Coq proof (induction over definition lists) + extracted-model correspondence + generator oracle',
         design='5/C07'),
     'C13': dict(
-        text='PARTIAL. Theorems for ALL buffers, token sets and nested tokenizers about the model of the dispatch loop and the container readers: every '
+        text='PARTIAL beyond the fragments. Theorems for ALL buffers, token sets and nested tokenizers about the model of the dispatch loop and the container readers: every '
              'entry of a buffer is exactly what the readers produce when started on the suffix that begins at the entry\'s recorded line; line numbers strictly '
              'increase along a buffer; a quote hands its children one buffer line per consumed line numbered from its own line; a list item\'s buffer is '
              'prefix-aligned with the lines it consumed. The model computes the line number of every block token (rows and cells included) and is compared '
-             'with the implementation on every token (X-doc). The composition over nesting is decided by a generator that records the line of every block it writes.',
+             'with the implementation on every token (X-doc). THE COMPOSITION OVER NESTING IS PROVED on the two unbounded fragments: for every tree (any size and depth) of paragraphs of several lines, ATX headings, fenced code blocks, block quotes and single-item lists, and for every tight nested bullet list, every block token at every depth carries exactly the line on which the writer put its first line (C13_fragment_line_numbers with pre_of / spell, C13_fragment_sibling_offset, C13_outline_line_numbers, C13_outline_one_line_per_node). Beyond the fragments (tables with rows and cells, HTML blocks, loose and ordered lists with several items, containers beginning with a blank line, lazy lines, definitions) it is decided by a generator that records the line of every block it writes.',
         note='Trusted: Coq kernel, extraction, parser model (correspondence-checked on all line numbers), line-recording generator. Known finding kf_setext_in_quote; one fix: commit (blank first line of a list item).',
         technique='Coq proof (induction over the dispatch loop and reader loops) + extracted-model correspondence + line-recording generator oracle',
         design='5/C13'),
